@@ -8,12 +8,71 @@ from fractions import Fraction
 import numpy as np
 
 
+class GQ:
+    """Gaussian rational re + i*im with Fraction parts (exact complex coefficients); results with im == 0 collapse to Fraction."""
+    __slots__ = ('re', 'im')
+
+    def __init__(self, re, im):
+        self.re, self.im = Fraction(re), Fraction(im)
+
+    @staticmethod
+    def of(x):
+        if isinstance(x, GQ):
+            return x
+        if isinstance(x, complex):
+            return GQ(Fraction(x.real), Fraction(x.imag))
+        return GQ(Fraction(x), 0)
+
+    @staticmethod
+    def _norm(re, im):
+        return re if im == 0 else GQ(re, im)
+
+    def __add__(self, o):
+        o = GQ.of(o)
+        return GQ._norm(self.re + o.re, self.im + o.im)
+    __radd__ = __add__
+
+    def __neg__(self):
+        return GQ(-self.re, -self.im)
+
+    def __sub__(self, o):
+        return self + (-GQ.of(o))
+
+    def __rsub__(self, o):
+        return GQ.of(o) + (-self)
+
+    def __mul__(self, o):
+        o = GQ.of(o)
+        return GQ._norm(self.re * o.re - self.im * o.im, self.re * o.im + self.im * o.re)
+    __rmul__ = __mul__
+
+    def __eq__(self, o):
+        try:
+            o = GQ.of(o)
+        except (TypeError, ValueError):
+            return NotImplemented
+        return self.re == o.re and self.im == o.im
+
+    def __hash__(self):
+        return hash((self.re, self.im))
+
+    def __complex__(self):
+        return complex(float(self.re), float(self.im))
+
+    def __abs__(self):
+        return abs(complex(self))
+
+    def __repr__(self):
+        return f'({self.re}{"+" if self.im >= 0 else "-"}{abs(self.im)}i)'
+
+
 def frac(c):
-    if isinstance(c, Fraction):
+    if isinstance(c, (Fraction, GQ)):
         return c
-    if isinstance(c, complex):
+    if isinstance(c, (complex, np.complexfloating)):
+        c = complex(c)
         if c.imag != 0:
-            raise ValueError('complex coefficient in exact polynomial')
+            return GQ(Fraction(c.real), Fraction(c.imag))
         c = c.real
     return Fraction(float(c)) if not isinstance(c, int) else Fraction(c)
 
@@ -44,7 +103,7 @@ def pequal(p, q, tol=0):
         return p == q
     for w in set(p) | set(q):
         a, b = p.get(w, 0), q.get(w, 0)
-        if abs(float(a) - float(b)) > tol * (1 + abs(float(a)) + abs(float(b))):
+        if abs(complex(a) - complex(b)) > tol * (1 + abs(complex(a)) + abs(complex(b))):
             return False
     return True
 
@@ -52,7 +111,7 @@ def pequal(p, q, tol=0):
 def pdiff(p, q):
     d = pclean(padd(p, q, -1))
     items = sorted(d.items(), key=lambda t: (len(t[0]), t[0]))[:4]
-    return ', '.join(f'{w}:{float(c):g}' for w, c in items)
+    return ', '.join(f'{w}:{complex(c):g}' for w, c in items)
 
 
 def chain_poly(istart, word, coeff, L, oid_identity=0):
@@ -183,5 +242,5 @@ def poly_dense(p, opmap, L, d):
         m = np.identity(1)
         for o in w:
             m = np.kron(m, opmap[o])
-        M = M + complex(float(c.real) if isinstance(c, complex) else float(c)) * m
+        M = M + complex(c) * m
     return M
